@@ -80,3 +80,240 @@ class conditional_exit:
 
     def ensures(self, args, result):
         return {}
+
+
+# ---- conditional cases must agree on their outputs ----------------------------------------------
+@contract("hugr.hugr.base.Hugr._update_node_outs", props=[])
+class update_node_outs:
+    """TRUSTED here (its effect on the store is the subject of C04 / C16): returns a handle for the same node."""
+    trusted = True
+    types = {"node": "Node", "num_outs": "Opt[int]"}
+    returns = "Node"
+
+    def modifies(self, node, num_outs):
+        return [self._nodes]
+
+    def raises(self, node, num_outs):
+        return {}
+
+    def ensures(self, node, num_outs, result):
+        return {"same_node": result.idx == node.idx}
+
+
+@contract("hugr.build.cond_loop.Conditional.parent_op", props=[])
+class conditional_parent_op:
+    """TRUSTED (property of ParentBuilder, read through the graph store): the operation object of the builder's root
+    node, named by a ghost function of the graph and the node index - assumed stable, i.e. nothing replaces the
+    operation object of the root node while the builder is used (its fields may be written)."""
+    trusted = True
+    returns = "hugr.ops.Conditional"
+
+    def modifies(self):
+        return []
+
+    def raises(self):
+        return {}
+
+    def ensures(self, result):
+        return {"named": same_obj(result, ghost("root_op_of", "hugr.ops.Conditional", self.hugr, self.parent_node.idx))}
+
+
+@contract("hugr.build.cond_loop.Conditional._update_outputs", props=["C13"])
+class update_outputs:
+    types = {"outputs": "Seq[Type]"}
+
+    def modifies(self, outputs):
+        return [self.parent_op._outputs, self.parent_node, self.hugr._nodes]
+
+    def raises(self, outputs):
+        # a row has been established (an *empty* row counts) and this case's row differs from it
+        return {hugr.build.cond_loop.ConditionalError: notNone(self.parent_op._outputs) and outputs != the(self.parent_op._outputs)}
+
+    def raises_ensures(self, outputs):
+        return {"P_nothing_recorded_on_error": eq(self.parent_op._outputs, old(self.parent_op._outputs))}
+
+    def ensures(self, outputs, result):
+        o0 = old(self.parent_op._outputs)
+        return {"P_first_row_is_established": implies(isNone(o0), notNone(self.parent_op._outputs) and eq(the(self.parent_op._outputs), outputs)),
+                "P_established_row_is_kept": implies(notNone(o0), eq(self.parent_op._outputs, o0)),
+                "P_same_conditional_node": self.parent_node.idx == old(self.parent_node).idx}
+
+
+# ---- a function's outputs must be its declared outputs ------------------------------------------
+@contract("hugr.build.dfg.Function.parent_op", props=[])
+class function_parent_op:
+    """TRUSTED, as Conditional.parent_op above."""
+    trusted = True
+    returns = "hugr.ops.FuncDefn"
+
+    def modifies(self):
+        return []
+
+    def raises(self):
+        return {}
+
+    def ensures(self, result):
+        return {"named": same_obj(result, ghost("root_op_of_fn", "hugr.ops.FuncDefn", self.hugr, self.parent_node.idx))}
+
+
+@spec
+def dtype(b, w):
+    """ghost: the type the graph reports for the wire (the result of _get_dataflow_type)"""
+    return ghost("dataflow_type_of", "Type", b.hugr, w)
+
+
+@contract("hugr.build.dfg.DfBase._get_dataflow_type", props=[])
+class get_dataflow_type_named:
+    """TRUSTED: names its result; raises ValueError for a port that carries no dataflow type (condition left open here,
+    it is the subject of the port-kind contracts of C06)."""
+    trusted = True
+    exact_self = False
+    types = {"wire": "Union[Node, OutPort]"}
+    returns = "Type"
+    may_raise = ["ValueError"]
+
+    def modifies(self, wire):
+        return []
+
+    def raises(self, wire):
+        return {}
+
+    def ensures(self, wire, result):
+        return {"A_named": same_obj(result, dtype(self, wire))}
+
+
+@contract("hugr.build.dfg.DfBase.set_outputs", props=[])
+class dfbase_set_outputs:
+    """TRUSTED: the plain builder's set_outputs (wiring and port counts are the subject of C01 / C04); it may refuse a wire."""
+    trusted = True
+    exact_self = False
+    types = {"args": "Seq[Union[Node, OutPort]]"}
+    may_raise = ["ValueError", "hugr.exceptions.NoSiblingAncestor"]
+
+    def modifies(self, args):
+        return [self.hugr._nodes, self.hugr._links.fwd, self.hugr._links.bck]
+
+    def raises(self, args):
+        return {}
+
+    def ensures(self, args, result):
+        return {}
+
+
+@contract("hugr.build.dfg.Function.set_outputs", props=["C13"])
+class function_set_outputs:
+    types = {"args": "Seq[Union[Node, OutPort]]"}
+    may_raise = ["ValueError", "hugr.exceptions.NoSiblingAncestor"]      # a wire the plain builder refuses / a port without a dataflow type
+
+    def modifies(self, args):
+        return [self.hugr._nodes, self.hugr._links.fwd, self.hugr._links.bck]
+
+    def raises(self, args):
+        # outputs have been declared and the row of the wires' types is not the declared row
+        # (element by element, and in length - a shorter or longer row differs)
+        declared = self.parent_op._outputs
+        return {ValueError: notNone(declared) and (len(args) != len(the(declared))
+                                                  or exists(int, lambda i: 0 <= i and i < len(args) and i < len(the(declared)) and dtype(self, nth(args, i)) != nth(the(declared), i)))}
+
+    def ensures(self, args, result):
+        return {"P_declaration_kept": eq(self.parent_op._outputs, old(self.parent_op._outputs))}
+
+
+# ---- every branch to the exit block agrees with the established exit row --------------------------
+@contract("hugr.build.cfg.Cfg._exit_op", props=[])
+class cfg_exit_op:
+    """TRUSTED accessor (as parent_op): the operation object of the exit block."""
+    trusted = True
+    returns = "hugr.ops.ExitBlock"
+
+    def modifies(self):
+        return []
+
+    def raises(self):
+        return {}
+
+    def ensures(self, result):
+        return {"named": same_obj(result, ghost("exit_op_of", "hugr.ops.ExitBlock", self.hugr, self.exit.idx))}
+
+
+@contract("hugr.build.cfg.Cfg.parent_op", props=[])
+class cfg_parent_op:
+    trusted = True
+    returns = "hugr.ops.CFG"
+
+    def modifies(self):
+        return []
+
+    def raises(self):
+        return {}
+
+    def ensures(self, result):
+        return {"named": same_obj(result, ghost("root_op_of_cfg", "hugr.ops.CFG", self.hugr, self.parent_node.idx))}
+
+
+@spec
+def outport_of(w):
+    """the port a wire denotes (Wire.out_port): the port itself, or output 0 of a node"""
+    return ite(cls_is(w, OutPort), as_cls(w, OutPort), OutPort(as_cls(w, Node), 0))
+
+
+@spec
+def succ_row(b, w):
+    """ghost: the row a block hands to the successor reached through wire w (the result of Cfg._nth_outputs)"""
+    return ghost("successor_row_of", "Seq[Type]", b.hugr, outport_of(w))
+
+
+@contract("hugr.build.cfg.Cfg._nth_outputs", props=[])
+class cfg_nth_outputs:
+    """TRUSTED: names its result (Block successor rows are the subject of C06); may refuse a wire that is not a block's."""
+    trusted = True
+    types = {"wire": "Union[Node, OutPort]"}
+    returns = "Seq[Type]"
+    may_raise = ["TypeError", "hugr.ops.IncompleteOp"]
+
+    def modifies(self, wire):
+        return []
+
+    def raises(self, wire):
+        return {}
+
+    def ensures(self, wire, result):
+        return {"A_named": eq(result, succ_row(self, wire))}
+
+
+@contract("hugr.hugr.base.Hugr.add_link", props=[])
+class add_link_trusted:
+    """TRUSTED here (C04 proves it): adds the link."""
+    trusted = True
+    types = {"src": "OutPort", "dst": "hugr.hugr.node_port.InPort"}
+
+    def modifies(self, src, dst):
+        return [self._links.fwd, self._links.bck, self._nodes]
+
+    def raises(self, src, dst):
+        return {}
+
+    def ensures(self, src, dst, result):
+        return {}
+
+
+@contract("hugr.build.cfg.Cfg.branch_exit", props=["C13"])
+class branch_exit:
+    types = {"src": "Union[Node, OutPort]"}
+    may_raise = ["TypeError", "hugr.ops.IncompleteOp"]
+
+    def modifies(self, src):
+        return [self._exit_op._cfg_outputs, self.parent_op._outputs, self.parent_node, self.hugr._nodes, self.hugr._links.fwd, self.hugr._links.bck]
+
+    def raises(self, src):
+        return {hugr.exceptions.MismatchedExit: notNone(self._exit_op._cfg_outputs) and the(self._exit_op._cfg_outputs) != succ_row(self, src)}
+
+    def raises_ensures(self, src):
+        return {"P_exit_row_unchanged_on_error": eq(self._exit_op._cfg_outputs, old(self._exit_op._cfg_outputs))}
+
+    def ensures(self, src, result):
+        w = src
+        e0 = old(self._exit_op._cfg_outputs)
+        return {"P_first_branch_establishes_the_exit_row": implies(isNone(e0), notNone(self._exit_op._cfg_outputs) and eq(the(self._exit_op._cfg_outputs), succ_row(self, w))
+                                                                   and notNone(self.parent_op._outputs) and eq(the(self.parent_op._outputs), succ_row(self, w))),
+                "P_established_exit_row_is_kept": implies(notNone(e0), eq(self._exit_op._cfg_outputs, e0))}
